@@ -248,7 +248,7 @@ def keyval_cases(tier):
     up to length 4 (5) over its own alphabet, in every frame that reaches it"""
     L = 4 if tier == 'quick' else 5
     for k in range(L + 1):
-        for c in itertools.product(KV_ALPHA, repeat=k):
+        for c in itertools.product(KV_ALPHA if k <= 2 else KV_ALPHA[:9], repeat=k):       # key names only in short strings
             for fi in range(len(KV_FRAMES)):
                 if k == L and fi > 1 and tier == 'quick':
                     continue
